@@ -261,7 +261,8 @@ PROPERTIES = {
     ),
     'C06': dict(
         level='proof',
-        functions=_DATA_FUNCS,
+        # a byte string that is the element of a repeated / optional field is compiled with the class options (search window, defaults)
+        functions=_DATA_FUNCS + ['structural_fields:Sequence._compile', 'structural_fields:Optional._compile'],
         lemmas=['bytes.slice_of_slice'],
         trusted_base=_COMMON_TRUST,
         assumptions=['offset >= 0', 'a bytes marker is non-empty', 'size callbacks are pure (role contract)',
